@@ -29,6 +29,7 @@ COMPONENTS_STUB = ["channel (fault injector)", "Byzantine signer (harness, "
                    "signature decoders"]
 ASSUMPTIONS = ["model ECDSA verification implements FIPS 186-4 6.4.2",
                "without truncation e is the whole digest as an integer"]
+HISTORY_DIFF = {"quick": 120, "thorough": 1000}
 SHRINK = [["items"]]
 REQUIRED_PROBES = {"quick": ["R_is_infinity", "model_accepts_tampered",
                              "model_rejects", "xR_ge_n"],
@@ -134,6 +135,7 @@ def execute(prog):
     dec = {"string": lu.sigdecode_string, "strings": lu.sigdecode_strings,
            "der": lu.sigdecode_der}
     log = []
+    rlog = []
     last = None
 
     def fail(oracle, site, msg, detail=None):
@@ -323,6 +325,7 @@ def execute(prog):
                      "verify raised %s(%s) for %s signature %r (kind %s)" % (
                          type(ex).__name__, ex, fmt, _show(data), kind),
                      dict(item=it, delivered=_show(data)))
+            rlog.append((fmt, _show(data), got))
             if expect_bad_digest:
                 if got != "baddigest":
                     fail("baddigest", "missing",
@@ -352,6 +355,7 @@ def execute(prog):
         out["violation"] = v.v
     out["steps"] = out["ops"]
     out["digest"] = core.digest_of(log)
+    out["rdigest"] = core.digest_of(rlog)
     return out
 
 
